@@ -93,10 +93,10 @@ func ruleV6(c *Ctx, prefix string) {
 	byVal, vals := v6Supported(c)
 	solicit := c.P.mustConst(c.R, pkgDHCP6, "MessageTypeSolicit")
 	rapid := c.P.mustConst(c.R, pkgDHCP6, "OptionRapidCommit")
-	innerRe := `invoke:` + reQ(pkgDHCP6) + `\.DHCPv6\.GetInnerMessage\(` + reQ(pkgDHCP6) + `\.FromBytes@t\d+\([^)]*\)#0\)`
+	innerRe := `invoke:` + reQ(pkgDHCP6) + `\.DHCPv6\.GetInnerMessage\(` + reQ(pkgDHCP6) + `\.FromBytes@(?:[\w$]+·)?t\d+\([^)]*\)#0\)`
 	typeRe := regexp.MustCompile(`^\(\*?` + reQ(pkgDHCP6) + `\.Message\)\.Type\(` + innerRe + `#0\)$`)
 	rcRe := regexp.MustCompile(`^\(\*?` + reQ(pkgDHCP6) + `\.Message\)\.GetOneOption\(` + innerRe + `#0,` + reQ(rapid) + `\)$`)
-	parseRe := regexp.MustCompile(`^` + reQ(pkgDHCP6) + `\.FromBytes@t\d+\([^)]*\)#1$`)
+	parseRe := regexp.MustCompile(`^` + reQ(pkgDHCP6) + `\.FromBytes@(?:[\w$]+·)?t\d+\([^)]*\)#1$`)
 	innerErrRe := regexp.MustCompile(`^` + innerRe + `#1$`)
 
 	// ---- TYPEMAP
@@ -194,12 +194,12 @@ func ruleV6(c *Ctx, prefix string) {
 				nn = 0
 			}
 			// constructor succeeded: some ctor call's error is nil on the path
-			ck, _ := histFact(st, "nil", regexp.MustCompile(`^`+reQ(pkgDHCP6)+`\.New(ReplyFromMessage|AdvertiseFromSolicit)@t\d+\(.*\)#1$`))
+			ck, _ := histFact(st, "nil", regexp.MustCompile(`^`+reQ(pkgDHCP6)+`\.New(ReplyFromMessage|AdvertiseFromSolicit)@(?:[\w$]+·)?t\d+\(.*\)#1$`))
 			if and3(p, ie, ty, ck, nn) != 1 {
 				setBad("V6.FILTER", fmt.Sprintf("send reachable with parse-ok=%d inner-ok=%d type-supported=%d reply-built=%d resp≠nil=%d", p, ie, ty, ck, nn), st)
 			}
 			// RELAY
-			isRelay, _ := histFact(st, "bool", regexp.MustCompile(`^invoke:`+reQ(pkgDHCP6)+`\.DHCPv6\.IsRelay\(`+reQ(pkgDHCP6)+`\.FromBytes@t\d+\([^)]*\)#0\)$`))
+			isRelay, _ := histFact(st, "bool", regexp.MustCompile(`^invoke:`+reQ(pkgDHCP6)+`\.DHCPv6\.IsRelay\(`+reQ(pkgDHCP6)+`\.FromBytes@(?:[\w$]+·)?t\d+\([^)]*\)#0\)$`))
 			r := ex.Resolve(st, sv)
 			isReenc := false
 			if e, ok := r.(*ssa.Extract); ok && e.Index == 0 {
@@ -207,7 +207,7 @@ func ruleV6(c *Ctx, prefix string) {
 					if f := rc.Call.StaticCallee(); f != nil && f.String() == pkgDHCP6+".NewRelayReplFromRelayForw" {
 						isReenc = true
 						a0 := ex.Canon(st, rc.Call.Args[0]).S
-						if !regexp.MustCompile(`^` + reQ(pkgDHCP6) + `\.FromBytes@t\d+\([^)]*\)#0\.\(\*` + reQ(pkgDHCP6) + `\.RelayMessage\)$`).MatchString(a0) {
+						if !regexp.MustCompile(`^` + reQ(pkgDHCP6) + `\.FromBytes@(?:[\w$]+·)?t\d+\([^)]*\)#0\.\(\*` + reQ(pkgDHCP6) + `\.RelayMessage\)$`).MatchString(a0) {
 							setBad("V6.RELAY", "relay reply is not built from the received Relay-Forward: "+shortName(a0), st)
 						}
 						// second argument: the chain result asserted to *Message
@@ -226,7 +226,7 @@ func ruleV6(c *Ctx, prefix string) {
 			}
 			switch isRelay {
 			case 1:
-				notMsg, _ := histFact(st, "bool", regexp.MustCompile(`^assert@t\d+:.*\.\(\*`+reQ(pkgDHCP6)+`\.Message\)#1$`))
+				notMsg, _ := histFact(st, "bool", regexp.MustCompile(`^assert@(?:[\w$]+·)?t\d+:.*\.\(\*`+reQ(pkgDHCP6)+`\.Message\)#1$`))
 				if !isReenc && notMsg != 0 {
 					setBad("V6.RELAY", "a relayed request is answered without re-encapsulation in a Relay-Reply", st)
 				}
@@ -254,7 +254,7 @@ func ruleV6(c *Ctx, prefix string) {
 			if isNilConst(wv) {
 				gotW = "nil"
 			} else if al, ok := wv.(*ssa.Alloc); ok {
-				if s, ok := st.ReadLocal("new@" + al.Name() + ".IfIndex"); ok {
+				if s, ok := st.ReadLocal("new@" + anm(al) + ".IfIndex"); ok {
 					gotW = s
 				}
 			}
@@ -311,7 +311,7 @@ func ruleV6(c *Ctx, prefix string) {
 		p, _ := histFact(e.St, "nil", parseRe)
 		ie, _ := histFact(e.St, "nil", innerErrRe)
 		ty := histEqIn(e.St, typeRe, vals)
-		ck, _ := histFact(e.St, "nil", regexp.MustCompile(`^`+reQ(pkgDHCP6)+`\.New(ReplyFromMessage|AdvertiseFromSolicit)@t\d+\(.*\)#1$`))
+		ck, _ := histFact(e.St, "nil", regexp.MustCompile(`^`+reQ(pkgDHCP6)+`\.New(ReplyFromMessage|AdvertiseFromSolicit)@(?:[\w$]+·)?t\d+\(.*\)#1$`))
 		nn := -1
 		if h.di != nil && h.di.ExitPhi != nil {
 			if ns, _ := ex.NilState(e.St, h.di.ExitPhi); ns == 0 {
@@ -323,7 +323,7 @@ func ruleV6(c *Ctx, prefix string) {
 		if and3(p, ie, ty, ck, nn) == 0 {
 			continue
 		}
-		if re, _ := histFact(e.St, "nil", regexp.MustCompile(`NewRelayReplFromRelayForw@t\d+\(.*\)#1$`)); re == 0 {
+		if re, _ := histFact(e.St, "nil", regexp.MustCompile(`NewRelayReplFromRelayForw@(?:[\w$]+·)?t\d+\(.*\)#1$`)); re == 0 {
 			continue // permitted drop: relay re-encapsulation failed
 		}
 		bad = fmt.Sprintf("return at %s without sending although no filter atom justifies a drop (parse=%d inner=%d type=%d built=%d resp≠nil=%d)", c.P.InstrPos(e.In), p, ie, ty, ck, nn)
